@@ -36,8 +36,15 @@ claim("C13", "other",
       "Trusted: clang 14 + tbfscan, origin resolver (rules/stages.py), g++ for witnesses.",
       "index-domain + constructor/rebuild construction-fact comparison over argument origins + must-compile witnesses", "DESIGN.md §2 C13")
 
+claim("C18", "other",
+      "Structural clauses that make the reported counts equal the number of elementary interactions for every tree and schedule: each decorator operator performs its state update and forwards exactly once to the wrapped kernel's same operator with its own parameters in order (results unchanged); "
+      "the counter's increments equal, as polynomials over the operator's count parameters, the documented quantities; Reduce merges every field once from each operand and every executor's applyToAllKernels visits every per-worker copy "
+      "(the per-worker selection inside tasks is C03.d); the documented merge and decorator composition compile for sequential, OpenMP and target/source executors. Numeric totals for a given tree are not decided.",
+      "Trusted: clang 14 + tbfscan, the frozen operator role table (which parameter is which count), sympy polynomial normal form, g++ for the witness.",
+      "forwarding / increment-polynomial / field-coverage rules over the clang AST + must-compile merge witness", "DESIGN.md §2 C18")
+
 _todo = "check not built yet in this round (see DESIGN.md §7 build order)"
-for p in ["C02","C06","C08","C09","C10","C11","C14","C15","C18","C20"]:
+for p in ["C02","C06","C08","C09","C10","C11","C14","C15","C20"]:
     NA[p] = _todo
 NA["C01"] = "exactly-once is a counting statement over all particle sets, heights, dimensions and groupings; no lint/effect/type argument bounds the list-builder arithmetic. Structural prerequisites are decided under C02/C03/C08/C11/C12."
 NA["C04"] = "bound on a floating-point truncation error over all positions/heights/orders: nothing about it is visible in the shape of the code (accumulate clause is under C08, code conventions under C11)."
